@@ -141,5 +141,12 @@ Theorem C12_product_isotone_into_any_route steps plo phi (X Y X' Y' r : list R *
   pmul RN steps plo phi DF X' Y' = Ok r ->
   forall i, (i < steps)%nat -> nth i (fst r) 0 <= frechet_left RN Rmult (fst X) (fst Y) i /\ frechet_right RN Rmult (snd X) (snd Y) i <= nth i (snd r) 0.
 Proof. exact (product_isotone_into_any_route steps plo phi X Y X' Y' r). Qed.
+Theorem C12_product_isotone_arrays steps plo phi (X Y X' Y' r : list R * list R) : (0 < steps)%nat ->
+  WF steps X -> WF steps Y -> WF steps X' -> WF steps Y' ->
+  (forall j, (j < steps)%nat -> 0 <= nth j (fst X) 0) -> (forall j, (j < steps)%nat -> 0 <= nth j (fst Y) 0) ->
+  ple (fst X') (fst X) -> ple (snd X) (snd X') -> ple (fst Y') (fst Y) -> ple (snd Y) (snd Y') ->
+  pmul RN steps plo phi DF X' Y' = Ok r ->
+  ple (fst r) (fst (frechet_op RN Rmult (fst X) (snd X) (fst Y) (snd Y))) /\ ple (snd (frechet_op RN Rmult (fst X) (snd X) (fst Y) (snd Y))) (snd r).
+Proof. exact (product_isotone_arrays steps plo phi X Y X' Y' r). Qed.
 Print Assumptions C12_tight_inside_sound.
 Print Assumptions C12_product_isotone_into_any_route.
